@@ -16,6 +16,9 @@ import PyGqlModel.Lemmas.PrintBlockLay
 import PyGqlModel.Lemmas.PrintStrip
 import PyGqlModel.Lemmas.PrintDocMatch
 import PyGqlModel.Lemmas.PrintBlockForms
+import PyGqlModel.Lemmas.PrintBridgeDefs
+import PyGqlModel.Lemmas.PrintBridgeNoLoc
+import PyGqlModel.Props.C02_spans
 import PyGqlModel.Props.C01_parse
 namespace PyGql.Props.C03
 open PyGql PyGql.Ast PyGql.Parse PyGql.Spec PyGql.Print PyGql.PrintLex PyGql.PrintMatch PyGql.PrintTokens PyGql.Lex
@@ -492,16 +495,68 @@ theorem print_stable_of_bridge (hb : ParserOutputOK) :
         printDocument c d' = printDocument c d :=
   print_stable_of_modulo (print_parse_modulo_members_of_bridge hb)
 
+/-- `parser_output_ok` — THE BRIDGE is proved: every tree the parser returns for a lexed text under `no_location` satisfies
+    the leaf conditions of the printer theorems and carries no positions.  Ingredients: `lex_sound` (every token is a
+    lexeme of the specification, C01), `block_string_spec` + `parseBlockString_range` (block-string values are canonical,
+    C02), `parse_sound_document` (the tree's leaves are the matched tokens and the tree is well-formed, C01) and
+    `noloc_erasure` (C02). -/
+theorem parser_output_ok : ParserOutputOK := by
+  intro fl c x toks d hnl hind hlex hparse
+  obtain ⟨hw, hm⟩ := C01.parse_sound_document fl toks d hparse
+  have hleaf := yield_classOK fl [documentV d] toks hm (classOK_of_lexAll x toks hlex)
+  constructor
+  · intro y hy
+    have hly : LeafOK (definitionV y).yield := by
+      intro cl hcl
+      apply hleaf
+      simp only [Item.yieldAll, documentV, Item.yield, PrintMatch.yieldAll_append, List.append_nil, List.mem_append,
+        List.mem_cons]
+      right; left
+      rw [yieldAll_map]
+      exact List.mem_flatMap.2 ⟨y, hy, hcl⟩
+    have hwy : wfDefinition fl y = true := by
+      simp only [wfDocument, Bool.and_eq_true, List.all_eq_true] at hw
+      exact (hw.2 y hy).1
+    exact okDefinition_of_leaf c.indent hind fl y hly hwy
+  · have he := C02.noloc_erasure fl toks
+    have hfl : { fl with noLocation := true } = fl := by cases fl; simp at hnl; subst hnl; rfl
+    rw [hfl, hparse] at he
+    simp only [Except.map, Except.ok.injEq] at he
+    rw [he]
+    exact noLocDocument_erase d
+
+/-- `print_parse_modulo_members` — `PrintParseModuloMembersStatement` IS PROVED (text level, the statement of C03 modulo
+    finding R4): for every text the lexer and parser accept (any flags with `no_location`), every indentation setting over
+    {space, tab}, descriptions on — the printed tree is accepted and parses to the same tree without the descriptions of
+    fields, arguments, input fields and enum values. -/
+theorem print_parse_modulo_members : PrintParseModuloMembersStatement :=
+  print_parse_modulo_members_of_bridge parser_output_ok
+
+/-- `print_stable` (text level, descriptions on): printing the re-parsed tree reproduces the same text -/
+theorem print_stable :
+    ∀ (fl : Flags) (c : Cfg) (x : Text) (toks : List Tok) (d : Document),
+      fl.noLocation = true → c.includeDescriptions = true → IndentOK c → lexAll x = .ok toks → parseDocument fl toks = .ok d →
+      ∃ toks' d', lexAll (printDocument c d) = .ok toks' ∧ parseDocument fl toks' = .ok d' ∧
+        printDocument c d' = printDocument c d :=
+  print_stable_of_bridge parser_output_ok
+
+/-- text level, exact: a text whose tree has no member descriptions round-trips to the SAME tree -/
+theorem print_parse_exact (fl : Flags) (c : Cfg) (x : Text) (toks : List Tok) (d : Document)
+    (hnl : fl.noLocation = true) (hdesc : c.includeDescriptions = true) (hind : IndentOK c)
+    (hlex : lexAll x = .ok toks) (hparse : parseDocument fl toks = .ok d) (hm : stripMemberDescriptions d = d) :
+    ∃ toks', lexAll (printDocument c d) = .ok toks' ∧ parseDocument fl toks' = .ok d := by
+  have := print_parse_modulo_members fl c x toks d hnl hdesc hind hlex hparse
+  rwa [hm] at this
+
 /-- `print_parse_partial` — SUPERSEDED summary (kept because the name is registered).  At TREE level everything is now
     proved, for every indentation configuration over {space, tab} and every flag combination with `no_location`:
       types (`print_parse_type`), values without any block-string hypothesis (`print_parse_value_full`, `block_lay_canon`),
       executable documents (`print_parse_executable`), ALL documents modulo member descriptions
       (`print_parse_document_modulo_members`, exact when there are none: `print_parse_document_exact`), stability
       (`print_stable_document`), the refutation of the unrestricted statement (`print_parse_refuted`, R4).
-    NOT proved: the bridge `ParserOutputOK` from texts to trees (lexer/parser output satisfies the leaf conditions; needs
-    `lex_sound` per token and the characterisation of the range of `BlockStringValue`), from which the text-level
-    `PrintParseModuloMembersStatement` follows (`print_parse_modulo_members_of_bridge`); documents printed with
-    `include_descriptions=False` (not part of the statement).  The conjunction below is the original partial result. -/
+    The bridge from texts to trees is proved too (`parser_output_ok`), hence the TEXT-level statements
+    `print_parse_modulo_members : PrintParseModuloMembersStatement`, `print_stable`, `print_parse_exact`.
+    NOT covered: documents printed with `include_descriptions=False` (not part of the statement).  The conjunction below is the original partial result. -/
 theorem print_parse_partial (fl : Flags) (hnl : fl.noLocation = true) (c : Cfg) :
     (∀ t, lexOkType t = true → noLocType t = true → wfType t = true →
       ∃ toks, lexAll (printType t) = .ok toks ∧ parseType fl toks = .ok t) ∧
